@@ -1,14 +1,17 @@
 /-
   Property C07 — STV meets Droop proportionality for solid coalitions (IRV majority criterion).
 
-  Full statement (kept visible; see `DroopPSC` below). This file proves the arithmetic and
-  combinatorial lemmas of the argument over the model's count state; the run-level induction that
-  assembles them is work in progress and the full statement is checked on the implementation for
-  ALL candidate subsets by the monitor of the C07 check.
+  Proved in full for the model: `C07_droop_psc` (every profile of untied ranked ballots, every
+  candidate subset S, k, seat count, simultaneous / one-by-one, fractional / random transfer, every
+  tiebreak setting and every oracle value — random tiebreak orders and random-transfer samples) and
+  its corollary `C07_irv_majority`. `DroopPSC` below is the statement as first written (fractional
+  rule, without the untied-profile side conditions); `C07_DroopPSC_holds_for_untied_profiles` relates
+  the two. The proof is an invariant over the count: `psc_step` / `psc_loop` / `psc_final`.
 -/
 import VK.Model.STV
 import VK.Lemmas.Sum
 import VK.Lemmas.PSC
+import VK.Lemmas.RandomTransfer
 import VK.Lemmas.FpvLink
 import VK.Model.Rules
 import Mathlib.Data.Rat.Floor
@@ -181,10 +184,11 @@ theorem filter_ne_length (l : List Cand) (c : Cand) (hn : l.Nodup) :
       simpa using this
     simp [hc, this]
 
-/-- **One step keeps the proportionality invariant** (fractional transfer, positive threshold). -/
+/-- **One step keeps the proportionality invariant** (either built-in transfer rule — `GoodTransfers` —
+positive threshold). -/
 theorem psc_step (cfg : STVCfg) (init : Profile) (q : Int) (ω : STVOracle) (rnd : Nat) (Sset : List Cand)
     (k : Nat) (N : Rat) (S S' : CState) (prev r : RoundState) (recs : List RoundState)
-    (hf : cfg.transfer = .fractional) (hq : 0 < q) (hi : init.cands.Nodup)
+    (hT : GoodTransfers cfg) (hq : 0 < q) (hi : init.cands.Nodup)
     (hcs : ∀ c ∈ S.hopeful, c ∈ init.cands)
     (P : PscInv init.cands Sset k q N S prev recs)
     (h : stvStep cfg init q ω rnd S prev = .ok (S', r)) :
@@ -203,10 +207,9 @@ theorem psc_step (cfg : STVCfg) (init : Profile) (q : Int) (ω : STVOracle) (rnd
   · ---------------------------------------------------------------- election round
     obtain ⟨hWn, hWs⟩ := electChoice_spec cfg q ω rnd S prev g tbs P.inv.hop_nodup P.inv.rem he
     have hge := electChoice_ge cfg q ω rnd S prev g tbs P.link P.inv.hop_nodup habove he
-    -- weights stay non-negative
-    have hnn' : ∀ b ∈ bs', 0 ≤ b.2 :=
-      (applyTransfers_coalition cfg S.hopeful q _ (fun _ => false) (fun _ => false) hf hq g.flatten S.bs bs'
-        P.nn hWn hge (by intro w _ _; simp [wsum]) ha).1
+    -- weights stay non-negative and every transfer consumes a threshold
+    obtain ⟨hnn', _, hact⟩ := hT S.hopeful q (ω.sample rnd) (fun _ => false) (fun _ => false) g.flatten S.bs bs'
+      hq P.nn hWn hge (by intro w _ _; simp [wsum]) (by intro w _ h; cases h) ha
     have hjS : jS Sset (r :: recs) = (g.flatten.filter (fun c => Sset.contains c)).length + jS Sset recs := by
       unfold jS; rw [electedIn_cons, hre]; simp
     have hsplit := filter_not_contains_perm S.hopeful g.flatten P.inv.hop_nodup hWn hWs
@@ -231,8 +234,28 @@ theorem psc_step (cfg : STVCfg) (init : Profile) (q : Int) (ω : STVOracle) (rnd
             simp [hs, hc', this]
           · simp [hs]
         rw [hfalse]; simp [wsum]
-      have hco := (applyTransfers_coalition cfg S.hopeful q _ (fun r => solidB Sset r) (fun c => Sset.contains c)
-        hf hq g.flatten S.bs bs' P.nn hWn hge hout ha).2
+      -- a coalition ballot counted for a winner still ranks a hopeful member who is not a winner
+      have htr : ∀ w ∈ g.flatten, (fun c => Sset.contains c) w = true → ∀ r, solidB Sset r = true →
+          topOf S.hopeful r = some w → (contRanking S.hopeful w r).isEmpty = false := by
+        intro w hw _ r hs _
+        obtain ⟨c0, hc0⟩ := List.exists_mem_of_ne_nil _ hne'
+        obtain ⟨hc0h, hc0S⟩ := List.mem_filter.1 hc0
+        rw [hSh] at hc0h
+        obtain ⟨hc0hop, hc0nw⟩ := List.mem_filter.1 hc0h
+        have hc0w : c0 ≠ w := by
+          intro e; rw [e] at hc0nw
+          have : g.flatten.contains w = true := by simpa using hw
+          rw [this] at hc0nw; cases hc0nw
+        have hsol := (solidB_iff _ _).1 hs
+        have hc0r : c0 ∈ r := List.mem_of_mem_take ((hsol.2 c0).2 (by simpa using hc0S))
+        have : c0 ∈ contRanking S.hopeful w r := by
+          unfold contRanking
+          exact List.mem_filter.2 ⟨hc0r, by simp [hc0hop, hc0w]⟩
+        cases hcr : contRanking S.hopeful w r with
+        | nil => rw [hcr] at this; cases this
+        | cons _ _ => rfl
+      have hco := (hT S.hopeful q (ω.sample rnd) (fun r => solidB Sset r) (fun c => Sset.contains c)
+        g.flatten S.bs bs' hq P.nn hWn hge hout htr ha).2.1
       have h0 := P.kw hne
       unfold kwS at h0 ⊢
       rw [hSb, hjS]
@@ -242,7 +265,7 @@ theorem psc_step (cfg : STVCfg) (init : Profile) (q : Int) (ω : STVOracle) (rnd
     · rcases P.acc with h0 | h0
       · left; rw [hSh, h0]; rfl
       · right
-        have h3 := applyTransfers_fractional_active cfg S.hopeful q _ g.flatten S.bs bs' hf ha
+        have h3 := hact
         have h4 := active_shrink bs' S.hopeful S'.hopeful hsub'
         have hex : 0 ≤ exhausted bs' S.hopeful S'.hopeful := wsum_nonneg _ _ hnn'
         rw [hSb, hSn]
@@ -322,7 +345,7 @@ theorem psc_step (cfg : STVCfg) (init : Profile) (q : Int) (ω : STVOracle) (rnd
 
 /-- the loop keeps the proportionality invariant and can only finish with all seats filled -/
 theorem psc_loop (cfg : STVCfg) (init : Profile) (q : Int) (ω : STVOracle) (Sset : List Cand) (k : Nat) (N : Rat)
-    (hf : cfg.transfer = .fractional) (hq : 0 < q) (hi : init.cands.Nodup)
+    (hT : GoodTransfers cfg) (hq : 0 < q) (hi : init.cands.Nodup)
     (fuel : Nat) (S : CState) (prev : RoundState) (acc tr : List (RoundState × CState))
     (hcs : ∀ c ∈ S.hopeful, c ∈ init.cands) (P : PscInv init.cands Sset k q N S prev (acc.map (·.1)))
     (h : stvLoop cfg init q ω fuel S prev acc = .ok tr) :
@@ -345,7 +368,7 @@ theorem psc_loop (cfg : STVCfg) (init : Profile) (q : Int) (ω : STVOracle) (Sse
       | ok Sr =>
         obtain ⟨S', r⟩ := Sr
         simp only [hs, bind, Outcome.bind] at h
-        have P' := psc_step cfg init q ω _ Sset k N S S' prev r _ hf hq hi hcs P hs
+        have P' := psc_step cfg init q ω _ Sset k N S S' prev r _ hT hq hi hcs P hs
         obtain ⟨_, hsub, _⟩ := stvStep_inv cfg init q ω _ S S' prev r _ hi hcs P.inv hs
         exact ih S' r ((r, S') :: acc) (fun c hc => hcs c (hsub c hc)) (by simpa using P') h
       | raised e => simp [hs, bind, Outcome.bind] at h
@@ -424,9 +447,9 @@ finished count elects at least `min k (min |Sset| m)` members of `Sset`.
 the scoring utility (`firstPlaceVotes`, as the code does) are the tallies of the initial count
 state. It is a decidable identity between two executable definitions of the same quantity; the
 driver evaluates it on every correspondence case (evidence: `fpv_link`). -/
-theorem C07_droop_psc_fractional (cfg : STVCfg) (p : Profile) (ω : STVOracle) (res : STVResult)
+theorem C07_droop_psc_general (cfg : STVCfg) (p : Profile) (ω : STVOracle) (res : STVResult)
     (Sset : List Cand) (k : Nat)
-    (hquota : cfg.quota = .droop) (hf : cfg.transfer = .fractional)
+    (hquota : cfg.quota = .droop) (hT : GoodTransfers cfg)
     (hSc : ∀ c ∈ Sset, c ∈ p.cands) (hS : Sset.Nodup) (hc : p.cands.Nodup)
     (hw : ∀ b ∈ p.ballots, 0 < b.weight)
     (hfpv : firstPlaceVotes p = .ok (tallies (stvInitState p).bs p.cands))
@@ -490,7 +513,7 @@ theorem C07_droop_psc_fractional (cfg : STVCfg) (p : Profile) (ω : STVOracle) (
         simp only [stvInitState, Profile.total] at this ⊢
         push_cast
         linarith
-    obtain ⟨Sf, prevf, Pf, hm⟩ := psc_loop cfg p _ ω Sset k p.total hf hq hc _ _ _ _ tr (fun c hc' => hc') P0 hl
+    obtain ⟨Sf, prevf, Pf, hm⟩ := psc_loop cfg p _ ω Sset k p.total hT hq hc _ _ _ _ tr (fun c hc' => hc') P0 hl
     have hfin := psc_final p.cands Sset k _ p.total cfg.m Sf prevf _ Pf hm hq hNq
     show min k (min Sset.length cfg.m) ≤ ((electedIn (tr.map (·.1))).filter (fun c => Sset.contains c)).length
     have : jS Sset (tr.reverse.map (·.1)) = jS Sset (tr.map (·.1)) := by
@@ -500,6 +523,19 @@ theorem C07_droop_psc_fractional (cfg : STVCfg) (p : Profile) (ω : STVOracle) (
   | raised e => simp [hl] at hrun
   | oracleMismatch => simp [hl] at hrun
   | outOfFuel => simp [hl] at hrun
+
+/-- the fractional rule (the form with the explicit glue hypothesis `hfpv`) -/
+theorem C07_droop_psc_fractional (cfg : STVCfg) (p : Profile) (ω : STVOracle) (res : STVResult)
+    (Sset : List Cand) (k : Nat)
+    (hquota : cfg.quota = .droop) (hf : cfg.transfer = .fractional)
+    (hSc : ∀ c ∈ Sset, c ∈ p.cands) (hS : Sset.Nodup) (hc : p.cands.Nodup)
+    (hw : ∀ b ∈ p.ballots, 0 < b.weight)
+    (hfpv : firstPlaceVotes p = .ok (tallies (stvInitState p).bs p.cands))
+    (hrun : stvRun cfg p ω = .ok res)
+    (hK : (k : Rat) * (res.threshold : Rat) ≤
+      rsum ((p.ballots.filter (fun b => solidB Sset b.ranking.flatten)).map (·.weight))) :
+    min k (min Sset.length cfg.m) ≤ ((electedOf res.states).filter (fun c => Sset.contains c)).length :=
+  C07_droop_psc_general cfg p ω res Sset k hquota (goodTransfers_fractional cfg hf) hSc hS hc hw hfpv hrun hK
 
 /-- **IRV majority criterion** (corollary, `S = {c}`, `k = 1`, one seat): a candidate ranked first on
 ballots worth at least the threshold wins IRV. -/
@@ -520,14 +556,15 @@ theorem C07_irv_majority (p : Profile) (tb : Option TB) (ω : STVOracle) (res : 
   have : x = c := by simpa using hx2
   rw [← this]; exact hx1
 
-/-- **C07, unconditional form.** For every profile of untied ranked ballots over its declared
-candidates (non-empty rankings, one candidate per position, positive weights), every candidate
-subset, every `k`, seat count, mode, tiebreak setting and oracle value: a finished STV count with the
-Droop quota and the fractional transfer elects at least `min k (min |S| m)` members of `S` whenever
+/-- **C07, unconditional form, either built-in transfer rule.** For every profile of untied ranked
+ballots over its declared candidates (non-empty rankings, one candidate per position, positive
+weights), every candidate subset, every `k`, seat count, mode, tiebreak setting and oracle value
+(random tiebreaks *and* every sample the random transfer may draw): a finished STV count with the
+Droop quota and the fractional or the random transfer elects at least `min k (min |S| m)` members of `S` whenever
 the ballots solid for `S` weigh at least `k` thresholds. (`hfpv` is discharged by `fpv_link`.) -/
 theorem C07_droop_psc (cfg : STVCfg) (p : Profile) (ω : STVOracle) (res : STVResult)
     (Sset : List Cand) (k : Nat)
-    (hquota : cfg.quota = .droop) (hf : cfg.transfer = .fractional)
+    (hquota : cfg.quota = .droop) (hf : cfg.transfer = .fractional ∨ cfg.transfer = .random)
     (hSc : ∀ c ∈ Sset, c ∈ p.cands) (hS : Sset.Nodup) (hc : p.cands.Nodup)
     (hw : ∀ b ∈ p.ballots, 0 < b.weight)
     (hne : ∀ b ∈ p.ballots, b.ranking ≠ [])
@@ -537,7 +574,9 @@ theorem C07_droop_psc (cfg : STVCfg) (p : Profile) (ω : STVOracle) (res : STVRe
     (hK : (k : Rat) * (res.threshold : Rat) ≤
       rsum ((p.ballots.filter (fun b => solidB Sset b.ranking.flatten)).map (·.weight))) :
     min k (min Sset.length cfg.m) ≤ ((electedOf res.states).filter (fun c => Sset.contains c)).length :=
-  C07_droop_psc_fractional cfg p ω res Sset k hquota hf hSc hS hc hw (fpv_link p hne hsingle hcast) hrun hK
+  C07_droop_psc_general cfg p ω res Sset k hquota
+    (hf.elim (goodTransfers_fractional cfg) (goodTransfers_random cfg))
+    hSc hS hc hw (fpv_link p hne hsingle hcast) hrun hK
 
 /-- the full statement `DroopPSC` restricted to the fractional rule and to profiles of untied ranked
 ballots is exactly what has been proved -/
@@ -552,7 +591,7 @@ theorem C07_DroopPSC_holds_for_untied_profiles :
       rsum ((p.ballots.filter (fun b => solidB S b.ranking.flatten)).map (·.weight)) →
     min k (min S.length cfg.m) ≤ ((electedOf res.states).filter (fun c => S.contains c)).length :=
   fun cfg p ω res S k hq hf hS hSc hw hc hne hs hcast hrun hK =>
-    C07_droop_psc cfg p ω res S k hq hf hSc hS hc hw hne hs hcast hrun hK
+    C07_droop_psc cfg p ω res S k hq (Or.inl hf) hSc hS hc hw hne hs hcast hrun hK
 
 /-- non-vacuity: a concrete count in which a coalition with two quotas gets its two seats -/
 def exPscProfile : Profile :=
